@@ -29,7 +29,8 @@ META = {
               "class:renamed-unread": 100, "class:renamed-read": 100,
               "class:unknown-read": 200, "class:unknown-untouched": 200,
               "noncanonical_tables": 100, "stale_bytes_would_differ": 500,
-              "generations:4": 50, "twin_tables": 200},
+              "generations:4": 50, "twin_tables": 200, "failed_saves": 300,
+              "spaced_type_name_tables": 100},
     "assumptions": [
         "new type names are supported and compatible with the value "
         "(integer widening, float->double, sequence->set)",
@@ -169,6 +170,22 @@ class Table:
         self.key, self.tn, self.raw, self.kind = key, tn, raw, kind
         self.state = "untouched"
         self.lazy_type = tn  # type the loaded bytes were written under
+
+
+# values the encoder cannot write, each behind at least one element it can
+POISON = [
+    lambda gt: ([1, 2, 2 ** 64], "sequence<uint64_t>"),
+    lambda gt: ([5, -129], "sequence<int8_t>"),
+    lambda gt: ({"a": 1, "b": -1}, "mapping<string,uint8_t>"),
+    lambda gt: (["ok", "\ud800"], "sequence<string>"),
+    lambda gt: ((1, 1e39), "tuple<int8_t,float>"),
+    lambda gt: ([1, "x"], "sequence<uint8_t>"),
+    lambda gt: ([gt.Variant(0, 7), gt.Variant(5, 1)],
+                "sequence<variant<uint8_t,string>>"),
+    lambda gt: (("k", 3), "tuple<string,UUID>"),
+    lambda gt: ([1], "sequence<foo>"),
+    lambda gt: ({"k": [1, None]}, "mapping<string,sequence<int64_t>>"),
+]
 
 
 def run(ctx):
@@ -324,6 +341,22 @@ def run(ctx):
                             cls = "renamed-read" if act == "rename_read" \
                                 else "renamed-unread"
                     expect[(lvl, t.key)] = (cls, t.tn, t.raw, (ad, model))
+            # a save that fails half-way, after which the caller drops the
+            # offending table and carries on: the tables written by the next
+            # save must not carry anything over from the failed one
+            if rnd.random() < 0.3:
+                holder = holders[rnd.choice(["ir", "mod"])]
+                bad_v, bad_t = rnd.choice(POISON)(gtirb)
+                holder.aux_data["poison"] = gtirb.AuxData(bad_v, bad_t)
+                case.ops.append({"gen": g, "action": "failed-save",
+                                 "type": bad_t})
+                try:
+                    irio.save(ir)
+                    ctx.count("poison_not_rejected")
+                except Exception as e:
+                    ctx.count("failed_saves")
+                    ctx.seen("failed_save_exceptions", type(e).__name__)
+                del holder.aux_data["poison"]
             # save and inspect the written message
             raw2 = irio.save(ir)
             msg = irio.parse_ir_message(gtirb, raw2)
